@@ -567,9 +567,24 @@ func c10InjectiveKeys(c *Ctx, r *Report) {
 					if _, isConst := call.Call.Args[1].(*ssa.Const); !isConst {
 						continue
 					}
-					// only joins of a record's keys / values
-					src, ok := call.Call.Args[0].(*ssa.Call)
-					if !ok || !(strings.HasSuffix(CalleeName(&src.Call), ".GetKeys") || strings.Contains(CalleeName(&src.Call), "Values")) {
+					// only joins of a record's keys / values (directly, or passed through a helper such as a sort)
+					var fromRecord func(v ssa.Value, depth int) bool
+					fromRecord = func(v ssa.Value, depth int) bool {
+						src, ok := v.(*ssa.Call)
+						if !ok || depth > 2 {
+							return false
+						}
+						if strings.HasSuffix(CalleeName(&src.Call), ".GetKeys") || (strings.HasPrefix(CalleeName(&src.Call), "pkg/mlrval.Mlrmap.") && strings.Contains(CalleeName(&src.Call), "Values")) {
+							return true
+						}
+						for _, a := range src.Call.Args {
+							if fromRecord(a, depth+1) {
+								return true
+							}
+						}
+						return false
+					}
+					if !fromRecord(call.Call.Args[0], 0) {
 						continue
 					}
 					usedAsKey := ""
@@ -620,6 +635,15 @@ func c10InjectiveKeys(c *Ctx, r *Report) {
 					n++
 					r.Fail("R10.6", fmt.Sprintf("%s: joined key list (%s)", SSAName(fn), usedAsKey), c.Rel(call.Pos()),
 						fmt.Sprintf("%s joins a record's keys or values with a constant separator and uses the result as an identity (%s): different lists can give the same string — use the length-prefixed Mlrmap.GetKeysJoined / GetSelectedValuesJoined", SSAName(fn), usedAsKey))
+				}
+			}
+			// a key joined by hand: a buffer written in a loop with a constant separator between
+			// the texts of a record's keys or values, with no length prefix, whose String() is a key
+			if strings.HasSuffix(pp, "/pkg/transformers") {
+				if how, pos := handJoinedKey(c, fn); how != "" {
+					n++
+					r.Fail("R10.6", fmt.Sprintf("%s: key joined by hand (%s)", SSAName(fn), how), c.Rel(pos),
+						fmt.Sprintf("%s builds a string by writing a record's keys or values into a buffer with a constant separator between them and no length prefix, and the result is used as an identity (%s): different lists can give the same string, so distinct groups are merged", SSAName(fn), how))
 				}
 			}
 		}
@@ -734,4 +758,133 @@ func c10ResetCoversIngest(c *Ctx, r *Report) {
 			fmt.Sprintf("%s does not reset %v, which Ingest writes: when the accumulator is reused (merge-fields, stats1 -w windows) the previous data leaks into the next result", SSAName(ti.reset), miss))
 	}
 	r.Floor("R10.5", "accumulator types with Ingest and Reset", n, 15)
+}
+
+// handJoinedKey: fn writes, inside a loop over a record's entries, a constant
+// separator and non-constant texts into a bytes.Buffer / strings.Builder, never
+// calls strconv.Itoa / FormatInt (a length prefix), and the buffer's String()
+// is used as a map key, compared, kept, or returned to a caller that does so.
+func handJoinedKey(c *Ctx, fn *ssa.Function) (string, token.Pos) {
+	sepInLoop, textInLoop, prefixed := false, false, false
+	var strCalls []*ssa.Call
+	for _, b := range fn.Blocks {
+		inLoop := blockReachesSelf(b)
+		for _, in := range b.Instrs {
+			call, ok := in.(*ssa.Call)
+			if !ok {
+				continue
+			}
+			name := CalleeName(&call.Call)
+			switch {
+			case name == "strconv.Itoa" || name == "strconv.FormatInt":
+				prefixed = true
+			case (strings.HasSuffix(name, "Buffer.WriteString") || strings.HasSuffix(name, "Builder.WriteString") || strings.HasSuffix(name, "Buffer.WriteByte") || strings.HasSuffix(name, "Builder.WriteByte")) && len(call.Call.Args) == 2 && inLoop:
+				if _, isConst := call.Call.Args[1].(*ssa.Const); isConst {
+					sepInLoop = true
+				} else {
+					textInLoop = true
+				}
+			case strings.HasSuffix(name, "Buffer.String") || strings.HasSuffix(name, "Builder.String"):
+				strCalls = append(strCalls, call)
+			}
+		}
+	}
+	if !sepInLoop || !textInLoop || prefixed || len(strCalls) == 0 {
+		return "", token.NoPos
+	}
+	// the loop walks a record (loads MlrmapEntry fields)
+	walksRecord := false
+	for _, b := range fn.Blocks {
+		for _, in := range b.Instrs {
+			if fa, ok := in.(*ssa.FieldAddr); ok && strings.HasSuffix(fa.X.Type().String(), "mlrval.MlrmapEntry") {
+				walksRecord = true
+			}
+		}
+	}
+	if !walksRecord {
+		return "", token.NoPos
+	}
+	isKeyUse := func(v ssa.Value) string {
+		how := ""
+		var follow func(v ssa.Value, depth int)
+		follow = func(v ssa.Value, depth int) {
+			if depth > 3 || v.Referrers() == nil {
+				return
+			}
+			for _, ref := range *v.Referrers() {
+				switch x := ref.(type) {
+				case *ssa.BinOp:
+					if x.Op == token.EQL || x.Op == token.NEQ {
+						how = "compared"
+					}
+				case *ssa.Lookup:
+					if x.Index == v {
+						how = "map key"
+					}
+				case *ssa.MapUpdate:
+					if x.Key == v {
+						how = "map key"
+					}
+				case *ssa.Phi:
+					follow(x, depth+1)
+				case *ssa.Call:
+					cn := CalleeName(&x.Call)
+					if strings.Contains(cn, "OrderedMap") && (strings.HasSuffix(cn, ".Get") || strings.HasSuffix(cn, ".Put") || strings.HasSuffix(cn, ".Has")) {
+						how = "ordered-map key"
+					}
+				}
+			}
+		}
+		follow(v, 0)
+		return how
+	}
+	for _, sc := range strCalls {
+		if how := isKeyUse(sc); how != "" {
+			return how, sc.Pos()
+		}
+		// returned: look at the callers' use of that result
+		for _, ref := range *sc.Referrers() {
+			ret, ok := ref.(*ssa.Return)
+			if !ok {
+				continue
+			}
+			idx := -1
+			for i, rv := range ret.Results {
+				if rv == ssa.Value(sc) {
+					idx = i
+				}
+			}
+			if idx < 0 {
+				continue
+			}
+			for _, caller := range c.ModuleFunctions() {
+				if caller.Blocks == nil {
+					continue
+				}
+				for _, b := range caller.Blocks {
+					for _, in := range b.Instrs {
+						call, ok := in.(*ssa.Call)
+						if !ok || call.Call.StaticCallee() != fn {
+							continue
+						}
+						var res ssa.Value = call
+						if fn.Signature.Results().Len() > 1 {
+							res = nil
+							for _, r2 := range *call.Referrers() {
+								if ex, ok := r2.(*ssa.Extract); ok && ex.Index == idx {
+									res = ex
+								}
+							}
+						}
+						if res != nil {
+							if how := isKeyUse(res); how != "" {
+								return how + " in " + SSAName(caller), sc.Pos()
+							}
+						}
+					}
+				}
+			}
+		}
+	}
+	return "", token.NoPos
 }
